@@ -262,6 +262,12 @@ fn cmd_gen_cases(m: &HashMap<String, String>) {
     let mut out = BufWriter::new(std::fs::File::create(m.get("out").expect("--out")).expect("create out"));
     let kinds = SpecsJ::kinds();
     let all = SpecsJ::all();
+    if kind == "forest" {
+        for case in cases::forest_cases(&mut rng, n, minn, maxn) {
+            writeln!(out, "{}", case).unwrap();
+        }
+        return;
+    }
     if kind == "structured" {
         for case in cases::structured_cases(&mut rng, n) {
             writeln!(out, "{}", case).unwrap();
